@@ -17,7 +17,8 @@ META = dict(
         quick="arbitrary symbolic account (incl. empty and zero-equity: balances of USD/BTC/ETH symbolic >= 0, an "
               "optional earlier loan), 2 priced pairs with closes from {100, 31234.56} x {2.5, 1800}, margin requirement "
               "from {0, 0.25, 0.5, 1, 2}, interest 7 %/day in USD with minimum {0, 0.01}; the loan under test: "
-              "create_loan(symbol in {USD, BTC, ETH}, symbolic amount) and limit/market orders with auto-borrow; NoLoans: "
+              "create_loan(symbol in {USD, BTC, ETH}, symbolic amount) and limit/market orders with auto-borrow; a loan in a "
+              "symbol whose pair has had no bar yet (valued by the oracle at either candidate price); NoLoans: "
               "every borrow request",
         thorough="adds a second earlier loan, interest symbol != borrowed symbol, symbolic margin requirement with 2 "
                  "decimals in [0, 3]"),
@@ -46,7 +47,7 @@ def equity_and_used(w, bal):
 
 
 def borrow(ctx, path="create_loan", lend="margin", earlier=1, margin_req="0.5", min_interest="0", kind="limit",
-           side="buy", lend_quote="USD", req_overrides=None, npairs=2, rebar=False):
+           side="buy", lend_quote="USD", req_overrides=None, npairs=2, rebar=False, unpriced=False):
     if margin_req == "symbolic":
         margin_req = ctx.dec("margin_requirement", 2, lo=0, hi=300)
     init = {"BTC": Decimal(0)} if earlier == "short" else None
@@ -55,6 +56,11 @@ def borrow(ctx, path="create_loan", lend="margin", earlier=1, margin_req="0.5", 
               lend_quote=lend_quote, req_overrides=req_overrides)
     # one bar per pair with a solver-chosen close
     for i, pair in enumerate(w.pairs):
+        if unpriced and i == 1:
+            # no bar of this pair yet: the exchange cannot value the symbol.  The oracle values it at the market
+            # price the exchange has not seen (a solver choice): whatever that price is, the requirement must hold
+            w.last_close[pair] = Decimal(ctx.pick("unseen_price_" + pair.base_symbol, CLOSES[pair.base_symbol]))
+            continue
         w.closes = CLOSES[pair.base_symbol]
         w.feed_bar("b%d" % i, pair_idx=i)
     w.closes = None
@@ -66,8 +72,6 @@ def borrow(ctx, path="create_loan", lend="margin", earlier=1, margin_req="0.5", 
             info = w.info(oid)
             ctx.prove(len(info.loan_ids) == 0 and not w.snapshot()["open_loans"],
                       "C10 without a lending strategy an auto-borrow order never borrows")
-        for lab in META["required_covers"]:
-            ctx.cover(lab)
         return
     if earlier == "short":
         # an earlier short sale: BTC is borrowed by an auto-borrow market sell and sold on the next bar, so that something
@@ -93,7 +97,7 @@ def borrow(ctx, path="create_loan", lend="margin", earlier=1, margin_req="0.5", 
         ctx.cover("a zero-equity account asked for a loan")
     loans_before = set(w.snapshot()["open_loans"])
     if path == "create_loan":
-        lid = w.create_loan("loan")
+        lid = w.create_loan("loan", symbol=w.pairs[1].base_symbol if unpriced else None)
         granted = lid is not None
     else:
         oid = w.place("o1", kind=kind, side=BUY if side == "buy" else SELL, auto_borrow=True)
@@ -109,8 +113,6 @@ def borrow(ctx, path="create_loan", lend="margin", earlier=1, margin_req="0.5", 
                   "borrowed", info=(path, margin_req))
     else:
         ctx.cover("a borrow request was refused")
-    if path == "create_loan":
-        ctx.cover("an auto-borrow order was accepted")
 
 
 def jobs(tier):
@@ -147,6 +149,10 @@ def jobs(tier):
     js.append(Job("create_loan after a price move", "borrow",
                   dict(path="create_loan", margin_req="0.5", earlier=1, rebar=True), validate_every=20,
                   sample_every=50, max_paths=200000, split=32))
+    for req in ("0.5", "0"):
+        js.append(Job("create_loan in a symbol that has no price yet req=%s" % req, "borrow",
+                      dict(path="create_loan", margin_req=req, earlier=0, unpriced=True), validate_every=20,
+                      sample_every=50, max_paths=200000))
     js.append(Job("NoLoans", "borrow", dict(lend="none", earlier=0), validate_every=10, sample_every=20))
     if tier == "thorough":
         for earlier in (0, 1):
